@@ -116,6 +116,8 @@ var vTopologies = [][]string{
 	{"acgtt", "ccgtg"},          // 7 two sources converging then diverging
 	{"aacgt", "cacgg"},          // 8 two sources, shared middle, fork
 	{"acgtc", "acgtc", "acgga"}, // 9 the same sequence twice + a branch
+	{"ggttcaatg", "ggtacaatg"},  // 10 bubble that reconverges, then a common tail
+	{"tcgactatg", "tcgcctatg"},  // 11 same shape, other k-mer code order
 }
 
 func vTopo(t int) []string {
